@@ -1,5 +1,5 @@
 """C17 - dispatcher splits rewards, bounded fee, keeps nothing (DESIGN 6, C17)."""
-from ..callgraph import explore, message_effects, site_guarded, call_sites
+from ..callgraph import explore, message_effects, site_guarded, call_sites, always_passes
 from ..expr import show, find, arith_args
 from .common import CONTRACTS, entry, msg_enum, variant_env, stored, where, arm_handler
 from .msgs import push_sequences, response_sequences, vec_elems, coin_parts, wasm_execute, is_zero_fact
@@ -56,6 +56,8 @@ def run(prog, world, sem, rep):
     rep.rule("C17.c", "the forwarded share is balance(D) - keeper(D) of the same D: bSei share sent to Config.bsei_reward_contract, stSei "
              "share attached as funds of BondRewards to Config.hub_contract (nothing retained)", 2)
     rep.rule("C17.d", "the reward contract's UpdateGlobalIndex is emitted on every path, to Config.bsei_reward_contract, after the bSei-share send", 2)
+    rep.rule("C17.j", "the keeper's cut is unconditional: every success exit of DispatchRewards passes the keeper transfer of each reward coin, except "
+             "through an edge on which that coin's balance (or the cut itself) was observed zero", 2)
     rep.rule("C17.h", "each held coin is counted once: the reward totals of the swap computation are accumulated over the elements of one "
              "query_all_balances(own address) answer (the bank lists each denom once), not over a configurable list", 1)
     rep.rule("C17.i", "SwapToRewardDenom emits the conversion swaps (other denoms -> bSei reward denom) before the rebalancing swap whose offer is "
@@ -113,6 +115,20 @@ def run(prog, world, sem, rep):
                 rep.ob("C17.b", "keeper send in %s" % lab_short(dl), ok,
                        "keeper transfer is not balance(%s) x krp_keeper_rate in that denom: %s" % (lab_short(dl), detail) if not ok
                        else "amount = balance(self, %s) x krp_keeper_rate" % lab_short(dl), where(vis.body, bb))
+                if ok:
+                    # C17.j: the keeper is paid on every success path, unless that balance (or the cut itself) was observed zero
+                    bal_l, cut = balances[dl], a
+
+                    def nothing_to_pay(f, resolve, bal_l=bal_l, cut=cut):
+                        if f[0] == "truth" and f[2] is True and f[1].op == "call" and f[1].info.endswith("::is_zero"):
+                            x = resolve(f[1].args[0])
+                            return sem.label(x) == bal_l or world.ident(x) == cut
+                        return False
+                    root = [v for v in vs if v.parent is None][0]
+                    okj, dj = always_passes(sem, vis, bb, nothing_to_pay, root)
+                    rep.ob("C17.j", "keeper is paid its cut of %s on every path" % lab_short(dl), okj,
+                           "DispatchRewards can succeed without sending the keeper its cut of %s although that balance was not observed zero: %s" % (lab_short(dl), dj)
+                           if not okj else dj, where(vis.body, bb), key="C17.j | %s" % lab_short(dl), fkey=lab_short(dl))
     # shares
     bsei_d = stored(DPCFG, "bsei_reward_denom")
     stsei_d = stored(DPCFG, "stsei_reward_denom")
